@@ -323,6 +323,10 @@ func blockOnListChangeWorker(
 	ctx.cs.beginBlocking()
 	defer ctx.cs.endBlocking()
 
+	// notice if the client disconnects while it waits
+	stopWatching := ctx.cs.client.WatchConnection()
+	defer stopWatching()
+
 	verifPoint("blk:before-register", ctx.cs.id, "")
 	ws := blockFn()
 	defer func() { ctx.dsc.ds.leaveListBlock(ws) }()
